@@ -1,12 +1,21 @@
 // C27 — Hydrex reverse index stays consistent with core data.
 //
 // Monitor: generated sequences of hydrex.Save (additions, removals, value updates, empty
-// and identical re-saves) and hydrex.Destroy over <=3 indexes x <=4 domains x <=8 keys are run
-// through the real SDK (hydrex on top of hydraidego) against the real gateway on a grpc.Server
-// over bufconn, single client. Reference model (from the package documentation of hydrex):
+// and identical re-saves), hydrex.Destroy and the two read accessors over <=3 indexes x <=4
+// domains x <=8 keys are run through the real SDK (hydrex on top of hydraidego) against the
+// real gateway on a grpc.Server over bufconn, single client. Index names, domains and keys are
+// drawn from ONE small identifier pool, so an identifier routinely serves as a domain and as
+// a key of the same index (and as an index name; the pool also holds the literal sanctuary
+// names hydrex uses). Reference model (from the package documentation of hydrex):
 // core[index][domain] = last saved items, rev[index][key] = domains whose core data holds the
-// key. After every step GetCoreData of every (index, domain) must equal the model's items and
-// GetIndexData of every (index, key) must be exactly the model's domain set.
+// key. After every step, in an order that changes from step to step,
+//   - GetCoreData of every (index, domain) and GetIndexData of every (index, key) on the Hydrex
+//     instance under test must equal the model, and
+//   - (second oracle, independent of any state the Hydrex instance keeps) the documented swamps
+//     hydraideCoreData/<index>/<domain> and hydraideIndex/<index>/<key> are read directly through
+//     the SDK and must hold exactly the model's items / domains;
+//
+// at the end of a sequence a fresh Hydrex instance on the same server must agree as well.
 package c27
 
 import (
@@ -18,37 +27,41 @@ import (
 	"testing"
 	"time"
 
+	"github.com/hydraide/hydraide/sdk/go/hydraidego/v3"
 	"github.com/hydraide/hydraide/sdk/go/hydraidego/v3/hydrex"
+	"github.com/hydraide/hydraide/sdk/go/hydraidego/v3/name"
 
 	"verifharness/rig"
 )
 
 type step struct {
-	Op     string            `json:"op"` // save | destroy
+	Op     string            `json:"op"` // save | destroy | getcore | getindex
 	Index  int               `json:"index"`
-	Domain int               `json:"domain"`
-	Items  map[string]string `json:"items,omitempty"` // key -> value (save)
+	Domain int               `json:"domain,omitempty"` // save destroy getcore
+	Key    int               `json:"key,omitempty"`    // getindex
+	Items  map[string]string `json:"items,omitempty"`  // key name -> value (save)
 }
 
+// sequence is self-contained: the names are spelled out (index names carry a per-sequence
+// suffix so that sequences cannot see each other's swamps).
 type sequence struct {
-	NI    int    `json:"ni"`
-	ND    int    `json:"nd"`
-	NK    int    `json:"nk"`
-	Steps []step `json:"steps"`
+	Indexes []string `json:"indexes"`
+	Domains []string `json:"domains"`
+	Keys    []string `json:"keys"`
+	ObsSeed uint64   `json:"obs_seed"` // order of the observations after each step
+	Steps   []step   `json:"steps"`
 }
 
-var (
-	indexPool  = []string{"productTags", "idx2", "a"}
-	domainPool = []string{"example.com", "shop-42", "Alice", "d4"}
-	keyPool    = []string{"seo", "ai", "feature", "tag-2", "K8", "x", "category", "lang.en"}
-	valuePool  = []string{"software", "AI", "", "v", "значение", "a b c", "0", strings.Repeat("long", 40)}
-)
+// one vocabulary for index names, domains and keys
+var idPool = []string{"x", "seo", "example.com", "hydraideCoreData", "hydraideIndex", "a", "tag-2", "K8", "productTags", "lang.en"}
+
+var valuePool = []string{"software", "AI", "", "v", "значение", "a b c", "0", strings.Repeat("long", 40)}
 
 // ---------------------------------------------------------------------------
 // generator (drives a private copy of the reference model so that removals / updates hit
 // existing data)
 
-type model map[int]map[int]map[string]string // index -> domain -> key -> value
+type model map[int]map[int]map[string]string // index -> domain -> key name -> value
 
 func (m model) items(i, d int) map[string]string {
 	if m[i] == nil {
@@ -60,13 +73,45 @@ func (m model) items(i, d int) map[string]string {
 	return m[i][d]
 }
 
-func gen(r *rand.Rand, nSteps int) sequence {
-	sq := sequence{NI: 1 + r.IntN(3), ND: 1 + r.IntN(4), NK: 2 + r.IntN(7)}
+func gen(r *rand.Rand, nSteps int, tag string) sequence {
+	ni, nd, nk := 1+r.IntN(3), 1+r.IntN(4), 2+r.IntN(7)
+	sq := sequence{ObsSeed: r.Uint64()}
+	for _, p := range r.Perm(len(idPool))[:ni] {
+		sq.Indexes = append(sq.Indexes, idPool[p]+tag)
+	}
+	// the sequence's vocabulary: a few pool identifiers plus (sometimes) its own index names;
+	// domains and keys are two independent draws from it, so they overlap most of the time
+	var vocab []string
+	for _, p := range r.Perm(len(idPool))[:3+r.IntN(6)] {
+		vocab = append(vocab, idPool[p])
+	}
+	if r.IntN(3) == 0 {
+		vocab = append(vocab, sq.Indexes...)
+	}
+	draw := func(n int) []string {
+		var o []string
+		for _, p := range r.Perm(len(vocab)) {
+			if len(o) < n {
+				o = append(o, vocab[p])
+			}
+		}
+		return o
+	}
+	sq.Domains, sq.Keys = draw(nd), draw(nk)
+	nd, nk = len(sq.Domains), len(sq.Keys)
 	m := model{}
 	for len(sq.Steps) < nSteps {
-		i, d := r.IntN(sq.NI), r.IntN(sq.ND)
+		i, d := r.IntN(ni), r.IntN(nd)
 		cur := m.items(i, d)
-		if r.IntN(100) < 12 {
+		x := r.IntN(100)
+		switch {
+		case x < 8:
+			sq.Steps = append(sq.Steps, step{Op: "getcore", Index: i, Domain: d})
+			continue
+		case x < 16:
+			sq.Steps = append(sq.Steps, step{Op: "getindex", Index: i, Key: r.IntN(nk)})
+			continue
+		case x < 27:
 			sq.Steps = append(sq.Steps, step{Op: "destroy", Index: i, Domain: d})
 			m[i][d] = map[string]string{}
 			continue
@@ -83,7 +128,7 @@ func gen(r *rand.Rand, nSteps int) sequence {
 		switch x := r.IntN(100); {
 		case x < 30 || len(cur) == 0: // additions
 			for n := 1 + r.IntN(3); n > 0; n-- {
-				k := keyPool[r.IntN(sq.NK)]
+				k := sq.Keys[r.IntN(nk)]
 				if _, ok := next[k]; !ok {
 					next[k] = valuePool[r.IntN(len(valuePool))]
 				}
@@ -101,8 +146,8 @@ func gen(r *rand.Rand, nSteps int) sequence {
 			}
 		case x < 85: // mixed: fresh subset with fresh values
 			next = map[string]string{}
-			for n := r.IntN(sq.NK + 1); n > 0; n-- {
-				next[keyPool[r.IntN(sq.NK)]] = valuePool[r.IntN(len(valuePool))]
+			for n := r.IntN(nk + 1); n > 0; n-- {
+				next[sq.Keys[r.IntN(nk)]] = valuePool[r.IntN(len(valuePool))]
 			}
 		case x < 92: // identical re-save
 		default: // empty item set
@@ -115,26 +160,38 @@ func gen(r *rand.Rand, nSteps int) sequence {
 }
 
 // fixed sequences: the documented life cycle (add, update, remove, destroy) with a key
-// shared by two domains.
-func fixedCases() []sequence {
+// shared by two domains, and the same with identifiers that are domain and key at once.
+func fixedCases(tag string) []sequence {
 	return []sequence{
-		{NI: 1, ND: 2, NK: 3, Steps: []step{
+		{Indexes: []string{"productTags" + tag}, Domains: []string{"example.com", "shop-42"}, Keys: []string{"seo", "ai", "feature"}, ObsSeed: 1, Steps: []step{
 			{Op: "save", Index: 0, Domain: 0, Items: map[string]string{"seo": "software", "ai": "AI"}},
 			{Op: "save", Index: 0, Domain: 1, Items: map[string]string{"seo": "v"}},
 			{Op: "save", Index: 0, Domain: 0, Items: map[string]string{"seo": "software", "feature": "v"}}, // removes ai, adds feature
 			{Op: "destroy", Index: 0, Domain: 1},
 			{Op: "save", Index: 0, Domain: 0, Items: map[string]string{}},
 		}},
-		{NI: 1, ND: 1, NK: 2, Steps: []step{
+		{Indexes: []string{"idx2" + tag}, Domains: []string{"example.com"}, Keys: []string{"seo", "ai"}, ObsSeed: 2, Steps: []step{
 			{Op: "save", Index: 0, Domain: 0, Items: map[string]string{"seo": "software"}},
 			{Op: "save", Index: 0, Domain: 0, Items: map[string]string{"seo": "AI"}}, // value update
 		}},
-		{NI: 2, ND: 2, NK: 2, Steps: []step{
-			{Op: "save", Index: 0, Domain: 0, Items: map[string]string{"seo": "a b c"}},
-			{Op: "save", Index: 1, Domain: 0, Items: map[string]string{"seo": "0", "ai": ""}},
+		// "links to" index: the keys of a domain are the ids of other domains
+		{Indexes: []string{"links" + tag}, Domains: []string{"x", "y", "z"}, Keys: []string{"x", "y", "z"}, ObsSeed: 3, Steps: []step{
+			{Op: "save", Index: 0, Domain: 0, Items: map[string]string{"y": "v", "z": "v"}},
+			{Op: "save", Index: 0, Domain: 1, Items: map[string]string{"x": "back", "z": ""}},
+			{Op: "getindex", Index: 0, Key: 0},
+			{Op: "save", Index: 0, Domain: 2, Items: map[string]string{"z": "self"}},
 			{Op: "destroy", Index: 0, Domain: 0},
-			{Op: "save", Index: 1, Domain: 1, Items: map[string]string{"ai": "v"}},
-			{Op: "destroy", Index: 1, Domain: 0},
+			{Op: "save", Index: 0, Domain: 1, Items: map[string]string{"x": "again"}},
+		}},
+		// first touch by a read accessor; identifiers equal to the sanctuary names and the index name
+		{Indexes: []string{"hydraideIndex" + tag, "a" + tag}, Domains: []string{"hydraideCoreData", "hydraideIndex", "a" + tag}, Keys: []string{"hydraideIndex", "hydraideCoreData", "a" + tag}, ObsSeed: 4, Steps: []step{
+			{Op: "getindex", Index: 0, Key: 0},
+			{Op: "getcore", Index: 1, Domain: 2},
+			{Op: "save", Index: 0, Domain: 1, Items: map[string]string{"hydraideIndex": "self", "hydraideCoreData": "v"}},
+			{Op: "save", Index: 1, Domain: 2, Items: map[string]string{"a" + tag: "self", "hydraideIndex": "0"}},
+			{Op: "save", Index: 0, Domain: 0, Items: map[string]string{"hydraideIndex": "v"}},
+			{Op: "destroy", Index: 0, Domain: 1},
+			{Op: "destroy", Index: 1, Domain: 2},
 		}},
 	}
 }
@@ -146,7 +203,10 @@ type violation struct{ sig, what string }
 
 // classify says what the step changes relative to the model state before it.
 func classify(s step, before map[string]string) string {
-	if s.Op == "destroy" {
+	switch s.Op {
+	case "getcore", "getindex":
+		return s.Op
+	case "destroy":
 		if len(before) == 0 {
 			return "destroy-empty"
 		}
@@ -178,116 +238,254 @@ func classify(s step, before map[string]string) string {
 	return "save:" + strings.Join(l, "+")
 }
 
-func indexName(tag string, i int) string { return indexPool[i] + tag }
+// raw models for the direct reads of the documented swamps
+type rawCore struct {
+	Key   string `hydraide:"key"`
+	Value string `hydraide:"value"`
+}
+type rawIndexed struct {
+	Domain string `hydraide:"key"`
+}
 
-// runSequence runs one sequence on hx under index names made unique by tag.
-func runSequence(ctx context.Context, hx hydrex.Hydrex, sq sequence, tag string, count func(string, int64)) (vs []violation, nontrivial bool, inconclusive string, trace []string) {
-	m := model{}
-	seen := map[string]bool{}
-	add := func(sig, what string) {
-		if !seen[sig] {
-			seen[sig] = true
-			vs = append(vs, violation{sig, what})
+type runner struct {
+	ctx   context.Context
+	h     hydraidego.Hydraidego
+	hx    hydrex.Hydrex
+	sq    sequence
+	m     model
+	count func(string, int64)
+	vs    []violation
+	seen  map[string]bool
+	inc   string
+	role  map[string]string // identifier -> shared | domain-only | key-only
+}
+
+func (r *runner) add(sig, what string) {
+	if !r.seen[sig] {
+		r.seen[sig] = true
+		r.vs = append(r.vs, violation{sig, what})
+	}
+}
+
+// readRaw reads every record of a swamp directly through the SDK ("" error text = fine).
+func (r *runner) readRaw(sw name.Name, model any, each func(any)) {
+	err := r.h.CatalogReadMany(r.ctx, sw, &hydraidego.Index{IndexType: hydraidego.IndexKey, IndexOrder: hydraidego.IndexOrderAsc}, model, func(m any) error { each(m); return nil })
+	if err != nil && !hydraidego.IsSwampNotFound(err) && !hydraidego.IsNotFound(err) && r.inc == "" {
+		r.inc = "direct read failed: " + err.Error()
+	}
+}
+
+// compareCore checks one (index, domain) core list from source ("hydrex", "direct", "fresh").
+func (r *runner) compareCore(source, cls, target string, n, i, d int, got map[string]string, dups []string) {
+	ix, dom := r.sq.Indexes[i], r.sq.Domains[d]
+	want := r.m.items(i, d)
+	pfx := "core"
+	if source != "hydrex" {
+		pfx = source + "-core"
+	}
+	tail := fmt.Sprintf("after-%s:%s:id=%s", cls, target, r.role[dom])
+	for _, k := range dups {
+		r.add(fmt.Sprintf("%s:duplicate-key:%s", pfx, tail), fmt.Sprintf("step %d: %s core data of (%s,%s) lists key %q twice", n, source, ix, dom, k))
+	}
+	for k, v := range want {
+		gv, ok := got[k]
+		switch {
+		case !ok:
+			r.add(fmt.Sprintf("%s:missing-key:%s", pfx, tail), fmt.Sprintf("step %d (%s): %s core data of (%s,%s) lacks key %q saved with value %q; got %v", n, cls, source, ix, dom, k, v, got))
+		case gv != v:
+			r.add(fmt.Sprintf("%s:stale-value:%s", pfx, tail), fmt.Sprintf("step %d (%s): %s core data of (%s,%s) key %q has value %q, last saved %q", n, cls, source, ix, dom, k, gv, v))
 		}
 	}
-	for n, s := range sq.Steps {
-		before := m.items(s.Index, s.Domain)
-		cls := classify(s, before)
-		if cls != "save:add" && cls != "save:noop-empty" && cls != "destroy-empty" && cls != "save:keep" && cls != "save:add+keep" {
-			nontrivial = true
+	for k := range got {
+		if _, ok := want[k]; !ok {
+			r.add(fmt.Sprintf("%s:extra-key:%s", pfx, tail), fmt.Sprintf("step %d (%s): %s core data of (%s,%s) lists key %q which the model does not hold there; got %v", n, cls, source, ix, dom, k, got))
 		}
-		trace = append(trace, fmt.Sprintf("%d:%s %s/%s %v", n, cls, indexPool[s.Index], domainPool[s.Domain], s.Items))
-		ix, dom := indexName(tag, s.Index), domainPool[s.Domain]
-		if s.Op == "destroy" {
-			hx.Destroy(ctx, ix, dom)
-			m[s.Index][s.Domain] = map[string]string{}
+	}
+}
+
+func (r *runner) compareIndex(source, cls, target string, n, i, k int, got map[string]bool, dups []string) {
+	ix, key := r.sq.Indexes[i], r.sq.Keys[k]
+	want := map[string]bool{}
+	for d := range r.sq.Domains {
+		if _, ok := r.m.items(i, d)[key]; ok {
+			want[r.sq.Domains[d]] = true
+		}
+	}
+	pfx := "index"
+	if source != "hydrex" {
+		pfx = source + "-index"
+	}
+	tail := fmt.Sprintf("after-%s:%s:id=%s", cls, target, r.role[key])
+	for _, dn := range dups {
+		r.add(fmt.Sprintf("%s:duplicate-domain:%s", pfx, tail), fmt.Sprintf("step %d: %s reverse index (%s,%s) lists domain %q twice", n, source, ix, key, dn))
+	}
+	for dn := range want {
+		if !got[dn] {
+			r.add(fmt.Sprintf("%s:missing-domain:%s", pfx, tail), fmt.Sprintf("step %d (%s): %s reverse index (%s,%s) lacks domain %q whose core data holds the key; got %v", n, cls, source, ix, key, dn, got))
+		}
+	}
+	for dn := range got {
+		if !want[dn] {
+			r.add(fmt.Sprintf("%s:extra-domain:%s", pfx, tail), fmt.Sprintf("step %d (%s): %s reverse index (%s,%s) lists %q, which is not a domain whose core data holds the key; got %v", n, cls, source, ix, key, dn, got))
+		}
+	}
+}
+
+func coreMap(l []*hydrex.CoreData) (m map[string]string, dups []string) {
+	m = map[string]string{}
+	for _, cd := range l {
+		if _, dup := m[cd.Key]; dup {
+			dups = append(dups, cd.Key)
+		}
+		m[cd.Key] = cd.Value
+	}
+	return
+}
+
+func indexSet(l []*hydrex.IndexedData) (m map[string]bool, dups []string) {
+	m = map[string]bool{}
+	for _, id := range l {
+		if m[id.Domain] {
+			dups = append(dups, id.Domain)
+		}
+		m[id.Domain] = true
+	}
+	return
+}
+
+// observe compares everything with the model: through hx (source "hydrex" or "fresh") and,
+// when direct is set, by reading the documented swamps through the SDK. The order of the
+// observations is shuffled with ord.
+func (r *runner) observe(hx hydrex.Hydrex, source string, direct bool, ord *rand.Rand, n int, cls string, s step) {
+	type obs struct {
+		core bool
+		i, j int
+	}
+	var l []obs
+	for i := range r.sq.Indexes {
+		for d := range r.sq.Domains {
+			l = append(l, obs{true, i, d})
+		}
+		for k := range r.sq.Keys {
+			l = append(l, obs{false, i, k})
+		}
+	}
+	ord.Shuffle(len(l), func(a, b int) { l[a], l[b] = l[b], l[a] })
+	for _, o := range l {
+		if o.core {
+			target := "other-domain"
+			switch {
+			case o.i != s.Index:
+				target = "other-index"
+			case s.Op != "getindex" && o.j == s.Domain:
+				target = "stepped-domain"
+			}
+			got, dups := coreMap(hx.GetCoreData(r.ctx, r.sq.Indexes[o.i], r.sq.Domains[o.j]))
+			r.count("core_reads", 1)
+			r.compareCore(source, cls, target, n, o.i, o.j, got, dups)
+			if direct {
+				dg, dd := map[string]string{}, []string(nil)
+				r.readRaw(name.New().Sanctuary("hydraideCoreData").Realm(r.sq.Indexes[o.i]).Swamp(r.sq.Domains[o.j]), rawCore{}, func(m any) {
+					c := m.(*rawCore)
+					if _, dup := dg[c.Key]; dup {
+						dd = append(dd, c.Key)
+					}
+					dg[c.Key] = c.Value
+				})
+				r.count("direct_reads", 1)
+				r.compareCore("direct", cls, target, n, o.i, o.j, dg, dd)
+			}
+			continue
+		}
+		target := "stepped-index"
+		if o.i != s.Index {
+			target = "other-index"
+		}
+		got, dups := indexSet(hx.GetIndexData(r.ctx, r.sq.Indexes[o.i], r.sq.Keys[o.j]))
+		r.count("index_reads", 1)
+		r.compareIndex(source, cls, target, n, o.i, o.j, got, dups)
+		if direct {
+			dg, dd := map[string]bool{}, []string(nil)
+			r.readRaw(name.New().Sanctuary("hydraideIndex").Realm(r.sq.Indexes[o.i]).Swamp(r.sq.Keys[o.j]), rawIndexed{}, func(m any) {
+				c := m.(*rawIndexed)
+				if dg[c.Domain] {
+					dd = append(dd, c.Domain)
+				}
+				dg[c.Domain] = true
+			})
+			r.count("direct_reads", 1)
+			r.compareIndex("direct", cls, target, n, o.i, o.j, dg, dd)
+		}
+	}
+}
+
+// runSequence runs one sequence on a Hydrex instance of its own.
+func runSequence(ctx context.Context, h hydraidego.Hydraidego, sq sequence, count func(string, int64)) (vs []violation, nontrivial bool, inconclusive string, trace []string) {
+	r := &runner{ctx: ctx, h: h, hx: hydrex.New(h), sq: sq, m: model{}, count: count, seen: map[string]bool{}, role: map[string]string{}}
+	for _, d := range sq.Domains {
+		r.role[d] = "domain-only"
+	}
+	for _, k := range sq.Keys {
+		if r.role[k] == "" {
+			r.role[k] = "key-only"
 		} else {
+			r.role[k] = "shared"
+			count("identifiers_both_domain_and_key", 1)
+		}
+	}
+	ord := rand.New(rand.NewPCG(sq.ObsSeed, 27))
+	var last step
+	for n, s := range sq.Steps {
+		last = s
+		cls := s.Op
+		ix := sq.Indexes[s.Index]
+		switch s.Op {
+		case "getcore":
+			got, dups := coreMap(r.hx.GetCoreData(ctx, ix, sq.Domains[s.Domain]))
+			r.compareCore("hydrex", cls, "stepped-domain", n, s.Index, s.Domain, got, dups)
+		case "getindex":
+			got, dups := indexSet(r.hx.GetIndexData(ctx, ix, sq.Keys[s.Key]))
+			r.compareIndex("hydrex", cls, "stepped-index", n, s.Index, s.Key, got, dups)
+		case "destroy":
+			cls = classify(s, r.m.items(s.Index, s.Domain))
+			r.hx.Destroy(ctx, ix, sq.Domains[s.Domain])
+			r.m[s.Index][s.Domain] = map[string]string{}
+		case "save":
+			cls = classify(s, r.m.items(s.Index, s.Domain))
 			items := map[string]*hydrex.CoreData{}
 			next := map[string]string{}
 			for k, v := range s.Items {
 				items[k] = &hydrex.CoreData{Key: k, Value: v}
 				next[k] = v
 			}
-			hx.Save(ctx, ix, dom, items)
-			m[s.Index][s.Domain] = next
+			r.hx.Save(ctx, ix, sq.Domains[s.Domain], items)
+			r.m[s.Index][s.Domain] = next
 		}
+		switch cls {
+		case "save:add", "save:noop-empty", "destroy-empty", "save:keep", "save:add+keep", "getcore", "getindex":
+		default:
+			nontrivial = true
+		}
+		trace = append(trace, fmt.Sprintf("%d:%s %s %v", n, cls, ix, s))
 		count("steps", 1)
-		// observe everything
-		for i := 0; i < sq.NI; i++ {
-			for d := 0; d < sq.ND; d++ {
-				want := m.items(i, d)
-				got := hx.GetCoreData(ctx, indexName(tag, i), domainPool[d])
-				count("core_reads", 1)
-				target := "other-domain"
-				if i == s.Index && d == s.Domain {
-					target = "stepped-domain"
-				} else if i != s.Index {
-					target = "other-index"
-				}
-				gm := map[string]string{}
-				for _, cd := range got {
-					if _, dup := gm[cd.Key]; dup {
-						add(fmt.Sprintf("core:duplicate-key:after-%s:%s", cls, target), fmt.Sprintf("step %d: GetCoreData(%s,%s) lists key %q twice", n, indexPool[i], domainPool[d], cd.Key))
-					}
-					gm[cd.Key] = cd.Value
-				}
-				for k, v := range want {
-					gv, ok := gm[k]
-					switch {
-					case !ok:
-						add(fmt.Sprintf("core:missing-key:after-%s:%s", cls, target), fmt.Sprintf("step %d (%s %s/%s): GetCoreData(%s,%s) lacks key %q saved with value %q; got %v", n, cls, indexPool[s.Index], domainPool[s.Domain], indexPool[i], domainPool[d], k, v, gm))
-					case gv != v:
-						add(fmt.Sprintf("core:stale-value:after-%s:%s", cls, target), fmt.Sprintf("step %d (%s %s/%s): GetCoreData(%s,%s) key %q has value %q, last saved %q", n, cls, indexPool[s.Index], domainPool[s.Domain], indexPool[i], domainPool[d], k, gv, v))
-					}
-				}
-				for k := range gm {
-					if _, ok := want[k]; !ok {
-						add(fmt.Sprintf("core:extra-key:after-%s:%s", cls, target), fmt.Sprintf("step %d (%s %s/%s): GetCoreData(%s,%s) still lists key %q which the last save/destroy removed", n, cls, indexPool[s.Index], domainPool[s.Domain], indexPool[i], domainPool[d], k))
-					}
-				}
-			}
-			for k := 0; k < sq.NK; k++ {
-				key := keyPool[k]
-				want := map[string]bool{}
-				for d := 0; d < sq.ND; d++ {
-					if _, ok := m.items(i, d)[key]; ok {
-						want[domainPool[d]] = true
-					}
-				}
-				got := hx.GetIndexData(ctx, indexName(tag, i), key)
-				count("index_reads", 1)
-				target := "stepped-index"
-				if i != s.Index {
-					target = "other-index"
-				}
-				gs := map[string]bool{}
-				for _, id := range got {
-					if gs[id.Domain] {
-						add(fmt.Sprintf("index:duplicate-domain:after-%s:%s", cls, target), fmt.Sprintf("step %d: GetIndexData(%s,%s) lists domain %q twice", n, indexPool[i], key, id.Domain))
-					}
-					gs[id.Domain] = true
-				}
-				for dname := range want {
-					if !gs[dname] {
-						add(fmt.Sprintf("index:missing-domain:after-%s:%s", cls, target), fmt.Sprintf("step %d (%s %s/%s): GetIndexData(%s,%s) lacks domain %q whose core data holds the key; got %v", n, cls, indexPool[s.Index], domainPool[s.Domain], indexPool[i], key, dname, gs))
-					}
-				}
-				for dname := range gs {
-					if !want[dname] {
-						add(fmt.Sprintf("index:extra-domain:after-%s:%s", cls, target), fmt.Sprintf("step %d (%s %s/%s): GetIndexData(%s,%s) lists domain %q whose core data does not hold the key", n, cls, indexPool[s.Index], domainPool[s.Domain], indexPool[i], key, dname))
-					}
-				}
-			}
-		}
+		r.observe(r.hx, "hydrex", true, ord, n, cls, s)
 		if ctx.Err() != nil {
 			// hydrex swallows errors: a cancelled context looks like lost data. Never decide on it.
 			return nil, nontrivial, "sequence watchdog fired (context deadline)", trace
 		}
-		if len(vs) > 0 {
-			break // later steps would only repeat the divergence
+		if r.inc != "" {
+			return nil, nontrivial, r.inc, trace
+		}
+		if len(r.vs) > 0 {
+			return r.vs, nontrivial, "", trace // later steps would only repeat the divergence
 		}
 	}
-	return
+	// a fresh Hydrex instance on the same server sees the same data
+	r.observe(hydrex.New(h), "fresh", false, ord, len(sq.Steps), "end", last)
+	if ctx.Err() != nil {
+		return nil, nontrivial, "sequence watchdog fired (context deadline)", trace
+	}
+	return r.vs, nontrivial, r.inc, trace
 }
 
 type job struct {
@@ -302,14 +500,14 @@ type shard struct {
 func runJobs(c *rig.Check, jobs []job) {
 	s := newSDKRig("c27")
 	defer s.stop()
-	hx := hydrex.New(s.H)
+	cleaner := hydrex.New(s.H)
 	for _, j := range jobs {
 		ctx, cancel := context.WithTimeout(context.Background(), 10*time.Minute)
-		vs, nontrivial, inc, trace := runSequence(ctx, hx, j.Seq, fmt.Sprintf("S%d", j.Idx), c.Count)
-		// leave nothing behind for the next sequence (names are unique anyway)
-		for i := 0; i < j.Seq.NI; i++ {
-			for d := 0; d < j.Seq.ND; d++ {
-				hx.Destroy(ctx, indexName(fmt.Sprintf("S%d", j.Idx), i), domainPool[d])
+		vs, nontrivial, inc, trace := runSequence(ctx, s.H, j.Seq, c.Count)
+		// leave nothing behind (index names are unique per sequence anyway)
+		for _, ix := range j.Seq.Indexes {
+			for _, d := range j.Seq.Domains {
+				cleaner.Destroy(ctx, ix, d)
 			}
 		}
 		cancel()
@@ -331,20 +529,21 @@ func runJobs(c *rig.Check, jobs []job) {
 func TestCheck(t *testing.T) {
 	c := rig.NewCheck(t, "C27", "exploration")
 	defer c.Finish()
-	c.Rule = "one case = one generated sequence of hydrex.Save / hydrex.Destroy over <=3 indexes x <=4 domains x <=8 keys, every (index,domain) core list and every (index,key) reverse list compared with the reference model after each step; non-trivial = the sequence contains a step that removes or updates existing items or destroys a non-empty domain; distinct = distinct sequence JSON"
+	c.Rule = "one case = one generated sequence of hydrex.Save / Destroy / GetCoreData / GetIndexData on a Hydrex instance of its own, over <=3 indexes x <=4 domains x <=8 keys whose names come from one shared identifier pool (identifiers serve as domain and key at once, also as index name); after each step every (index,domain) core list and every (index,key) reverse list is compared with the reference model in a shuffled order, through hydrex and by reading the documented swamps directly; a fresh Hydrex instance is compared at the end; non-trivial = the sequence contains a step that removes or updates existing items or destroys a non-empty domain; distinct = distinct sequence JSON"
 	c.Assumptions = []string{
 		"an item is its (key, value) pair: a Save that carries an existing key with a new value is an update and GetCoreData must return the new value (package doc: 'Save: Adds/updates core data'); CreatedAt and list order are not compared",
-		"map key and CoreData.Key are always equal; index, domain and key names follow the documented naming constraints (no '/', no '*')",
-		"single client, sequential calls; the engine runs in real time (hydrex registers its swamps with 1 s idle close), the oracle never uses the clock; a 10 min per-sequence watchdog only yields inconclusive",
+		"map key and CoreData.Key are always equal; index, domain and key names follow the documented naming constraints (no '/', no '*'); domains and keys of one index are independent name spaces (the documentation places them in different sanctuaries: hydraideCoreData/<index>/<domain>, hydraideIndex/<index>/<key>), which is also what the direct-read oracle relies on",
+		"single client, sequential calls; the engine runs in real time (hydrex registers its swamps with 1 s idle close), the oracle never uses the clock; a 10 min per-sequence watchdog and a failing direct read only yield inconclusive",
 	}
 	c.MinNontrivial = 10
 
+	tagOf := func(i int) string { return fmt.Sprintf("S%d", i) }
 	if c.IsChild() {
 		var sh shard
 		c.ChildSpec(&sh)
 		var jobs []job
 		for i := sh.From; i < sh.To; i++ {
-			jobs = append(jobs, job{gen(c.Rand(i), sh.Steps), i})
+			jobs = append(jobs, job{gen(c.Rand(i), sh.Steps, tagOf(i)), i})
 		}
 		runJobs(c, jobs)
 		return
@@ -359,12 +558,12 @@ func TestCheck(t *testing.T) {
 	}
 	n, steps := c.N(150, 3000), c.N(25, 60)
 	var jobs []job
-	for i, sq := range fixedCases() {
+	for i, sq := range fixedCases("F") {
 		jobs = append(jobs, job{sq, 1000000 + i})
 	}
 	if c.Quick() {
 		for i := 0; i < n; i++ {
-			jobs = append(jobs, job{gen(c.Rand(i), steps), i})
+			jobs = append(jobs, job{gen(c.Rand(i), steps, tagOf(i)), i})
 		}
 		runJobs(c, jobs)
 		return
